@@ -539,16 +539,16 @@ def phase_map(groups):
         elif path.endswith(".PID.renamify.tmp") or (kind == "rename" and ".PID.renamify.tmp" in op):
             cur = p = "content"
             seen_content = True
-        elif kind == "rename":
-            cur = p = "renames"
         elif "/backups" in path:
             cur = p = "backup"
         elif "history.json" in path:
-            cur = p = "history"
+            cur = p = "history"             # (also the rename of history.json.<pid>.tmp over history.json)
         elif "/plans" in path:
             cur = p = "plans"
         elif path.endswith("plan.json"):
             cur = p = "final"
+        elif kind == "rename":
+            cur = p = "renames"
         elif not path.startswith(".renamify") and kind in ("openw", "write", "chmod"):
             cur = p = "patches"            # undo writes user files in place
         else:
